@@ -8,6 +8,13 @@
   `Sim.failAt k sched` raises in period `k`.  Equality is `ObsEq`: every field of the state except the
   ghost list `core.invoked` (the failed call is one more entry there).
 
+  Part 1b: the same for a scheduler WITH STATE (`SimSortedRd.runSt`: the scheduler is a state machine
+  `σ → View → Except Err (Schedule × σ)`; the sorted algorithms with the `SimpleRampdown` estimator are one,
+  `SimSortedRd.sortedSchedSt`).  The state is not serialised; the property's "given its scheduler again" hands
+  the SAME object back.  `resume_eq_stateful` / `crash_json_resume_eq_stateful`: resuming from the failed (resp.
+  decoded) simulator state with the scheduler state of the crash is the uninterrupted run, final scheduler
+  state included — for every scheduler, crash period and fuel.
+
   Part 2 (registry) is about `Acn.Registry`: `dump` / `load` are the memoised post-order walk of
   base.py; acyclicity is given by a rank function.  For the concrete per-class codec `Acn.RegistrySim`
   (`encode` = what `to_json()` writes, `decode` = the `_from_dict`s): `decode ∘ load ∘ dump ∘ encode = id` on
@@ -19,6 +26,7 @@
   and every dumped key is restored, with an explicit allow-list.
 -/
 import AcnProofs.Lemmas.ResumeRun
+import AcnProofs.Lemmas.ResumeSt
 import AcnProofs.Lemmas.RegistryRoundtrip
 import AcnProofs.Lemmas.RegistryCodec
 import AcnProofs.Lemmas.RegistryDecode
@@ -147,6 +155,71 @@ theorem resume_eq_complete (cfg : Sim.Cfg K) (sched : View K → Except EventCor
     simp only [] at h32
     subst h32
     exact ⟨sR, hm, hgd, h31⟩
+
+
+/-! ### a scheduler with state (hidden in the algorithm object, not serialised) -/
+
+/-- RESUME with a STATEFUL scheduler (`SimSortedRd.runSt`; e.g. a sorted algorithm with its `SimpleRampdown`
+    estimator, `SimSortedRd.sortedSchedSt`), for EVERY scheduler `sched`, initial scheduler state `st0`, crash
+    period `k` and fuel `n`: either the failure never fires and the run is literally the uninterrupted one, or it
+    aborts in period `k` with `SchedulerFailed`, and running again from the failed simulator state WITH THE
+    SCHEDULER STATE AT THE CRASH (`r1.2`: what the surviving algorithm object holds — `run()` again, or
+    `update_scheduler` with the same object after a load) yields the uninterrupted run's outcome: same error (if
+    any), `ObsEq` simulator state, and the SAME final scheduler state. -/
+theorem resume_eq_stateful {σ : Type} (cfg : Sim.Cfg K)
+    (sched : σ → View K → Except EventCore.Err (Schedule K × σ)) (hS : SessionsOK cfg.core) (st0 : σ) (k n : Nat) :
+    let r1 := SimSortedRd.runSt cfg (SimSortedRd.failAtSt k sched) n st0 (Sim.init cfg)
+    let r := SimSortedRd.runSt cfg sched n st0 (Sim.init cfg)
+    r1 = r ∨
+    (r1.1.2 = some EventCore.Err.schedulerFailed ∧ r1.1.1.core.iter = k ∧
+     ObsEqR (SimSortedRd.runSt cfg sched (n - k) r1.2 r1.1.1).1 r.1 ∧
+     (SimSortedRd.runSt cfg sched (n - k) r1.2 r1.1.1).2 = r.2) := by
+  have h0 : NoOverdue cfg.core (Sim.init cfg).core := init_noOverdue hS
+  rcases SimSortedRd.resume_runSt cfg sched k n st0 h0 (Nat.zero_le k) with h | ⟨h1, h2, _, h4⟩
+  · exact Or.inl h
+  · refine Or.inr ⟨h1, h2, ?_⟩
+    have h4' : SimSortedRd.ObsEqRS
+        (SimSortedRd.runSt cfg sched (n - k) (SimSortedRd.runSt cfg (SimSortedRd.failAtSt k sched) n st0 (Sim.init cfg)).2
+          (SimSortedRd.runSt cfg (SimSortedRd.failAtSt k sched) n st0 (Sim.init cfg)).1.1)
+        (SimSortedRd.runSt cfg sched n st0 (Sim.init cfg)) := by
+      simpa [Sim.init, EventCore.init] using h4
+    exact ⟨h4'.1, h4'.2⟩
+
+/-- a stateful scheduler that never looks at its state is a pure one: `resume_eq_stateful` specialises to
+    `resume_eq` (`runSt` of `lift sched` is `run` of `sched`, state untouched) — the two statements are
+    about the same loop -/
+theorem runSt_lift_eq_run {σ : Type} (cfg : Sim.Cfg K) (sched : View K → Except EventCore.Err (Schedule K))
+    (n : Nat) (st : σ) (s : State K) :
+    SimSortedRd.runSt cfg (SimSortedRd.lift sched) n st s = (run cfg sched n s, st) := by
+  induction n generalizing st s with
+  | zero => rfl
+  | succ n ih =>
+    unfold SimSortedRd.runSt Sim.run
+    split
+    · have h1 := SimSortedRd.bodySt_fst' cfg (SimSortedRd.lift (σ := σ) sched) st s
+      have hf : SimSortedRd.frozen (SimSortedRd.lift (σ := σ) sched) st = sched := by
+        funext v
+        unfold SimSortedRd.frozen SimSortedRd.lift
+        cases sched v <;> rfl
+      rw [hf] at h1
+      have h2 : (SimSortedRd.bodySt cfg (SimSortedRd.lift sched) st s).2 = st := by
+        rw [SimSortedRd.bodySt_eq]
+        rcases eventsStage cfg s with ⟨s1, _ | err⟩ <;> simp only []
+        unfold SimSortedRd.afterEventsSt SimSortedRd.schedStageSt SimSortedRd.lift
+        split
+        · split
+          · rfl
+          · cases sched (view cfg { s1 with core := markInvoked s1.core }) with
+            | error e => rfl
+            | ok sch =>
+              simp only
+              cases Pilots.updateSchedules (cfg.stations.map (·.id)) s1.pilots s1.core.iter
+                ((lastTs s1.core.pending).map Int.toNat) sch <;> rfl
+        · rfl
+      rcases hb : SimSortedRd.bodySt cfg (SimSortedRd.lift sched) st s with ⟨⟨s', _ | e⟩, st'⟩ <;>
+        rw [hb] at h1 h2 <;> simp only [] at h1 h2 <;> subst h2 <;> rw [← h1] <;> simp only []
+      exact ih st' s'
+    · rfl
 
 /-! ### non-vacuity: one event of each kind pending at the crash; the crash fires, also in the LAST period (F7) -/
 section Examples
